@@ -34,7 +34,7 @@ PhaseLinear == Mode = "lin" =>
                      /\ VarOf(p) = c1.v + p * p * c2.v
                      /\ SubMulTo(c1, p, c2).v = c1.v + p * p * c2.v
 (* ---- C03: decryption returns the nearest message; inverts encryption when M*|e| < 1/2 ---- *)
-Ms == 2..6
+Ms == {M \in 2..6 : M * M <= Q}       \* the double-width rounding is exact only while M^2 <= torus size (M <= 2^15 at 32 bits)
 DecryptNearest == Mode = "dec" => \A M \in Ms :
     /\ IsNearest(ModSwitchFromCode(Phase(c1, key), M), Phase(c1, key), M)
     /\ Decrypt(c1, key, M) = ModSwitchToCode(ModSwitchFromCode(Phase(c1, key), M), M)
